@@ -467,6 +467,10 @@ class Scrollable(WidgetDecoration[WrappedWidget]):
 class ScrollBar(WidgetDecoration[WrappedWidget]):
     Symbols = ScrollbarSymbols
 
+    # the thumb is computed from the wrapped widget's total rows and position, which depend on content
+    # that is not displayed (and so is not a dependency of the canvas): do not cache
+    no_cache: typing.ClassVar[list[str]] = ["render"]
+
     def sizing(self) -> frozenset[Sizing]:
         return frozenset((Sizing.BOX,))
 
